@@ -77,7 +77,11 @@ def run_case(case):
     scale = case.get('scale', 1)
     base = datetime.datetime(2020, 2, 27, 23, 59, 58, tzinfo=datetime.timezone.utc if case.get('tz') else None)
     def tm(i):
-        return base + datetime.timedelta(seconds=i[0] * scale)
+        t = base + datetime.timedelta(seconds=i[0] * scale)
+        if case.get('tz') == 'mixed' and i[3] % 2:
+            # the same instant expressed with another UTC offset (two sites, a DST change): aware datetimes compare as instants
+            t = t.astimezone(datetime.timezone(datetime.timedelta(hours=5, minutes=30)))
+        return t
     def td(n):
         return None if n is None else datetime.timedelta(seconds=n * scale)
     clock, phead, head = [0], [], []
@@ -161,7 +165,7 @@ def run_case(case):
             if (inactive is not None and b - a == inactive) or (active is not None and b - a == active):
                 exact_gap = True
     has_closing = closing and any(case['flags'])
-    labels = (['tz-aware'] if case.get('tz') else ['naive']) + ['scale=%d' % scale, 'active=%s' % active, 'inactive=%s' % inactive, 'closing=%s' % ('inc' if closing and include else ('exc' if closing else 'no')),
+    labels = (['tz-mixed-offsets'] if case.get('tz') == 'mixed' else ['tz-aware'] if case.get('tz') else ['naive']) + ['scale=%d' % scale, 'active=%s' % active, 'inactive=%s' % inactive, 'closing=%s' % ('inc' if closing and include else ('exc' if closing else 'no')),
               ('grouped' if grouped is True else ('under-split' if grouped else 'top')), 'windows=%d' % min(nwin, 4)]
     if exact_gap:
         labels.append('gap==timeout')
@@ -180,7 +184,7 @@ def case_gen(draw):
         't0': draw(st.integers(0, 3)),
         'deltas': draw(st.lists(st.integers(0, 7), min_size=n, max_size=n)),
         'flags': draw(st.lists(st.integers(0, 3).map(lambda x: int(x == 0)), min_size=n, max_size=n)),
-        'grouped': draw(st.sampled_from([False, True, True, 'split'])), 'scale': draw(st.sampled_from([1, 1, 3600, 43200, 86400, 0.2, 0.001])), 'cm': draw(st.sampled_from(['lambda', 'default_arg', 'partial', 'obj'])), 'tz': draw(st.booleans()),
+        'grouped': draw(st.sampled_from([False, True, True, 'split'])), 'scale': draw(st.sampled_from([1, 1, 3600, 43200, 86400, 0.2, 0.001])), 'cm': draw(st.sampled_from(['lambda', 'default_arg', 'partial', 'obj'])), 'tz': draw(st.sampled_from([False, True, 'mixed'])),
     }
     case['gk'] = draw(st.lists(st.integers(0, 2), min_size=n, max_size=n)) if case['grouped'] else None
     return case
